@@ -22,14 +22,14 @@ SCHED_FLAGS = "--cfg graaf_verif --cfg graaf_verif_shuttle"
 # runs per (property, tier) for the shuttle engine; fixed counts (never a time
 # box) so that one VERIF_SEED always denotes the same set of runs
 PLAN = {
-    "C01": {"quick": 160000, "thorough": 3000000},
-    "C11": {"quick": 16000, "thorough": 120000},
-    "C12": {"quick": 24000, "thorough": 200000},
+    "C01": {"quick": 160000, "thorough": 12000000},
+    "C11": {"quick": 16000, "thorough": 600000},
+    "C12": {"quick": 24000, "thorough": 4000000},
     "C13": {"quick": 11694, "thorough": 35082},  # lane L: the whole catalogue once / three times (other schedulers)
-    "C14": {"quick": 12422, "thorough": 75455},  # 2x / 5x the enumerated grid (6211 / 15091 cells)
-    "C15": {"quick": 16000, "thorough": 160000},
+    "C14": {"quick": 12422, "thorough": 603640},  # 2x / 40x the enumerated grid (6211 / 15091 cells)
+    "C15": {"quick": 16000, "thorough": 300000},
     "C17": {"quick": 40000, "thorough": 200000},
-    "C20": {"quick": 60000, "thorough": 1000000},
+    "C20": {"quick": 60000, "thorough": 3000000},
 }
 
 TITLES = {}
@@ -170,8 +170,21 @@ def run_workers(binary, pid, tier, runs, seed, workdir, njobs, extra=None):
         se = open(os.path.join(workdir, "shard%02d.stderr" % k), "w")
         procs.append((k, cmd, out, subprocess.Popen(cmd, env=env, stdout=so, stderr=se), so, se))
     outputs, crashes = [], []
+    # wall-clock limit per batch: a primitive outside the seam (a std mutex, channel or condvar) that blocks
+    # inside a simulated task would otherwise stop the simulator forever
+    limit = float(os.environ.get("VERIF_WORKER_TIMEOUT", "1200" if tier == "quick" else "14400"))
+    deadline = time.time() + limit
     for k, cmd, out, p, so, se in procs:
-        rc = p.wait()
+        try:
+            rc = p.wait(timeout=max(1.0, deadline - time.time()))
+        except subprocess.TimeoutExpired:
+            for _, _, _, q, _, _ in procs:
+                if q.poll() is None:
+                    q.kill()
+            idx = last_begin(out + ".current")
+            log("HARNESS-ERROR worker shard %d did not finish within %.0fs (stuck in run %s): a blocking primitive "
+                "outside the verification seam may have stopped the simulator; the Miri lanes still schedule it" % (k, limit, idx))
+            raise SystemExit(2)
         so.close()
         se.close()
         skip = []
